@@ -2060,7 +2060,20 @@ impl<'a, 'b, W: Write> SerializeTupleStruct for TupleSer<'a, 'b, W> {
                         if self.ser.in_flow == 0 {
                             // Stage the comment so scalar/alias serializers append it inline via write_end_of_scalar.
                             if !comment.is_empty() {
-                                let sanitized = comment.replace('\n', " ");
+                                // A comment ends at the first line break of any kind, and control
+                                // characters are not allowed in a YAML stream: keep it on one line.
+                                let sanitized: String = comment
+                                    .chars()
+                                    .map(|c| {
+                                        if c.is_control()
+                                            || matches!(c, '\u{2028}' | '\u{2029}' | '\u{FEFF}')
+                                        {
+                                            ' '
+                                        } else {
+                                            c
+                                        }
+                                    })
+                                    .collect();
                                 self.ser.pending_inline_comment = Some(sanitized);
                             }
                             // Serialize the inner value as-is. Complex values will ignore the comment (it will be cleared).
